@@ -106,6 +106,8 @@ func (lrw *limitedResponseWriter) Hijack() (net.Conn, *bufio.ReadWriter, error) 
 
 // Support http.Flusher if underlying supports it
 func (lrw *limitedResponseWriter) Flush() {
+	// Flushing commits the header, so the recorded status has to go out first
+	lrw.ensureHeaderWritten()
 	if f, ok := lrw.ResponseWriter.(http.Flusher); ok {
 		f.Flush()
 	}
@@ -182,6 +184,12 @@ func newSizeLimitMiddleware(name string, cfg map[string]interface{}) (Middleware
 
 			// Call next handler with the limited response writer
 			next.ServeHTTP(lrw, r)
+
+			// Deliver the recorded status of responses that never wrote a body
+			// (HEAD, 204, 304, redirects, empty errors)
+			if lrw.statusCode != 0 {
+				lrw.ensureHeaderWritten()
+			}
 		})
 	}, nil
 }
